@@ -17,7 +17,7 @@ for p in props:
             evidence_file="/verif/evidence/%s.json" % pid,
             replay_cmd_template="./check %s --replay {path}" % pid,
             engine=m.get('engine', 'dse'),
-            level_claimed=dict(category="model_checking", text=m['level_text'], design_ref=m.get('design_ref', 'DESIGN.md section 4, ' + pid)),
+            level_claimed=dict(category=m.get('category', "model_checking"), text=m['level_text'], design_ref=m.get('design_ref', 'DESIGN.md section 4, ' + pid)),
             level_note=m['level_note'],
             technique=m['technique']))
     else:
